@@ -29,7 +29,7 @@ CHECKS.update({
              "Of the front-end clause it decides one finite part: the contextual-keyword token kinds that parse_identifier accepts "
              "as names are names at every name site, start-set test and gate in front of a name acceptor (15 rejected-name sites "
              "of the pinned tree reproduced as SyntaxErrors and repaired, fix: commits). It does not decide that the grammar as a "
-             "whole yields the same non-type AST with and without annotations. Also: modifier words are consumed in front of a member / parameter name only behind a one-token look-ahead; every keyword type variant is constructed by the type parser. A token-set pre-filter that transcribes a dispatcher's arms (nine tenths mutual coverage) lists all of them.",
+             "whole yields the same non-type AST with and without annotations. Also: modifier words are consumed in front of a member / parameter name only behind a one-token look-ahead; every keyword type variant is constructed by the type parser. A token-set pre-filter that transcribes a dispatcher's arms (nine tenths mutual coverage) lists all of them. A speculative parser answers None only with every consumed token restored (typestate).",
         ref="4/C03"),
     "C15": dict(
         technique="static analysis: match-arm regions of the opcode interpreter + who-may-cast rule + def-chain (greatest fixed point) inside conversion helpers; value-origin rule for every f64 handed to Display/LowerExp in the number printers (field-sensitive through the format_args! tuple), who-may-format rules (one default printer; no tie-to-even precision formatting); positive-control fixtures; flow rule from fixed-width integer parsers / integer accumulators to script numbers; format-template inspection (bytes of format_args! templates, plain placeholder learnt from a fixture)",
@@ -102,7 +102,7 @@ CHECKS.update({
         text="Decides sibling agreement on corresponding fragments: the two VmResult->StepResult mappers per variant, outcome "
              "classes of every VmResult consumer per role, the ModuleExport finalisers per variant, the frame pop sites, and the "
              "tsrun_step/tsrun_run wrappers; a non-empty set of missing imports has NeedImports as its only outcome in every entry point; the entry points install the current module path alike and every installer of a program's module scope writes the whole run record the step() finaliser takes (the eval() suspension defect was repaired, fix: commit). The module-role disagreement (a dependency whose body suspends fails, the entry "
-             "module suspends) is genuine and listed with failing programs. Equality of results is not decided. Every thrown value a StepResult-returning function hands back is materialised first (repaired, fix: commit).",
+             "module suspends) is genuine and listed with failing programs. Equality of results is not decided. Every thrown value a StepResult-returning function hands back is materialised first (repaired, fix: commit). Import bindings are set up after (never before) the module scope is installed.",
         ref="4/C19"),
 })
 
@@ -113,7 +113,7 @@ CHECKS.update({
              "structurally: handle dereferences dominated by Weak::upgrade, bitmap indices provably in range (with "
              "CHUNK_CAPACITY tied to the bitmap width), raw chunk-pointer offsets bound-checked, chunks never reallocating, "
              "sweep only after mark, pooled slots never rooted, no truncated quotient bounding a word counter, recycled root buffers enter the guard pool empty. Four obligations fail on today's tree (borrow after heap drop, "
-             "missing handle identity check); both are genuine, reproduced and listed. It does not decide that live == reachable. ",
+             "missing handle identity check); both are genuine, reproduced and listed. It does not decide that live == reachable.  A slot leaves the pool only behind a reset of its contents.",
         ref="4/C13"),
 })
 
@@ -187,7 +187,7 @@ CHECKS.update({
              "were reproduced and repaired, fix: commit) and the JSON exporter refuses cycles (its recursion is dominated by the "
              "visited-set test and the set is restored); serialized JSON text is never rewritten by a structure-blind substitution. "
              "Fidelity of strings, numbers and ordering is a matter of values and is "
-             "not decided. Also: function-, symbol- and undefined-valued members (and symbol keys) are left out, each behind a test of what the value is; a double is written to a document as an integer only behind comparisons that keep it inside the integer type (the 2**63 defect was repaired, fix: commit). No consumer re-reads a string key as an index.",
+             "not decided. Also: function-, symbol- and undefined-valued members (and symbol keys) are left out, each behind a test of what the value is; a double is written to a document as an integer only behind comparisons that keep it inside the integer type (the 2**63 defect was repaired, fix: commit). No consumer re-reads a string key as an index. The exporter removes what it recorded on every successful exit.",
         ref="4/C16"),
 })
 
@@ -238,7 +238,7 @@ CHECKS.update({
              "instructions in the middle, and an entry is suppressed only on span equality (never by order: emission order is not source order); the "
              "map lookup returns the entry at or before the offset; the trace builder lists the current frame first, walks the trampoline stack from "
              "its top and looks both frame kinds up at ip - 1 of their own chunk. All discharge on the current tree. That a reported position lies "
-             "inside the offending token for every layout is a matter of run-time values and not decided. Every creator of a nested function compiler passes on the source file (frames of constructors and arrows name their file; repaired, fix: commit).",
+             "inside the offending token for every layout is a matter of run-time values and not decided. Every creator of a nested function compiler passes on the source file (frames of constructors and arrows name their file; repaired, fix: commit). A program is compiled under a parameter path or the run's current path, never under a set-once field.",
         ref="4/C20"),
 })
 
@@ -257,7 +257,7 @@ CHECKS.update({
              "auto-increment counter (a contradiction between the two beliefs restarted the numbering after `A = -10` - reproduced with computed "
              "members and repaired, fix: commit); enum and namespace declarations both look up an existing binding before creating their object (the "
              "enum lowering does not: repeated enum declarations do not merge - known finding); the namespace export step handles the same declaration "
-             "kinds as the module export step. Also: namespace members are published in the turn of the body loop that compiles them; a derived class constructor initialises fields and parameter properties after super(); no emitted equality test compares a value with itself or with a unary opcode of itself (such a test is a NaN test, not a number test).",
+             "kinds as the module export step. Also: namespace members are published in the turn of the body loop that compiles them; a derived class constructor initialises fields and parameter properties after super(); no emitted equality test compares a value with itself or with a unary opcode of itself (such a test is a NaN test, not a number test). Registers recorded for deferred parameter-property stores are not freed while the emitter can still run.",
         ref="4/C04"),
 })
 
